@@ -179,6 +179,13 @@ def replay_one(run, path, ck):
 def c03(run, ck):
     run.model_check("MC_Big", workers=4)
     eval_stage(run, ck, "arith", 1500, 60000)
+    if run.thorough:
+        # independence of the build profile: the same cases on a release build (no overflow checks inserted by the compiler)
+        run.build(release=True)
+        out = os.path.join(run.work, "arith.release.ndjson")
+        run.drive("arith", 20000, out, release=True)
+        verdicts, recs = run.validate(out, "Trace_Eval", parts=8, label="arith (release build)")
+        eval_violations(run, ck, verdicts, recs, "arith-release")
     return dict(rule="boundary grid x operators x all type pairs (each as bound variables and as literals) + seeded random 64-bit operands; "
                      "a case is non-trivial when the specification allows exactly one outcome (value or error class)",
                 assumptions=["Rust's catch_unwind reports panics; release-profile behaviour is checked only in the thorough tier"])
